@@ -65,7 +65,7 @@ def r_readback(P, rep):
     tokenised (line ends, line splicing, \\uXXXX).  Spellings that come from a source file have been rewritten once already;
     spellings the preprocessor makes itself (quoted strings for __FILE__ and #, -D bodies) have not.  Decided on concrete
     texts, by interpreting tokenize_file() and the text producers of preprocess.c up to their call of tokenize()."""
-    rep.rule('R19.7', 'the -E text reads back as itself: (a) a text that a function of preprocess.c makes from a string it is given and tokenises itself (new_str_token: the quoted string of __FILE__/__BASE_FILE__/__TIMESTAMP__ and of the # operator; define_macro: a -D body) - whose spellings -E prints without their ever having passed the text phases of tokenize_file() - is left unchanged by those phases (line-end canonicalisation, line splicing, universal-character-name decoding), for strings that contain \\uXXXX / \\UXXXXXXXX, an escaped backslash followed by u/U and hex digits, or a quote; (b) the phases are idempotent: applied to their own result (the spelling of a token that came from a file, printed and read again) they change nothing', floor=18)
+    rep.rule('R19.7', 'the -E text reads back as itself: (a) a text that a function of preprocess.c makes from a string it is given and tokenises itself (new_str_token: the quoted string of __FILE__/__BASE_FILE__/__TIMESTAMP__ and of the # operator; define_macro: the line `name body` of a -D definition) - whose spellings -E prints without their ever having passed the text phases of tokenize_file() - is left unchanged by those phases (line-end canonicalisation, line splicing, universal-character-name decoding), for strings that contain \\uXXXX / \\UXXXXXXXX, an escaped backslash followed by u/U and hex digits, or a quote; (b) the phases are idempotent: applied to their own result (the spelling of a token that came from a file, printed and read again) they change nothing', floor=18)
     rep.assumptions += ['R19.7 is decided on a table of concrete texts (one per kind of character sequence the text phases of tokenize_file look for), not for all texts; texts with line ends inside a -D body or a file name are not considered; universal character names below U+0080 are not in the table']
     rb = RB.ReadBack(P)
     tu, pu = P.unit(TU), P.unit(PU)
@@ -98,7 +98,7 @@ def r_readback(P, rep):
                 flowing = None
                 break
             if any(b'x+1' in t for t in plain):
-                flowing.append(i)       # (the other string parameters are not what is tokenised: a macro name, a file name)
+                flowing.append(i)       # (a string parameter that is not part of what is tokenised - a file name - is no probe; define_macro's line is made of both of its strings)
         if not flowing:
             continue
         nsrc += 1
@@ -106,11 +106,12 @@ def r_readback(P, rep):
             key = '%s:%s:tokenised-text-reads-back-unchanged:%s' % (PU, fname, cls)
             try:
                 texts = sorted(set(t for i in flowing for t in pr.produced(fname, i, raw)))
-                back = [(t, rb.phases(t + b'\n')) for t in texts]
+                line = lambda t: t if t.endswith(b'\n') else t + b'\n'       # (a text that is a whole line already - the line define_macro builds - is read back as that line)
+                back = [(t, rb.phases(line(t))) for t in texts]
             except (AnalysisBroken, Infeasible) as e:
                 rep.undecided('R19.7', key, 'the text %s() tokenises for the string %r, or what tokenize_file makes of it, cannot be followed: %s' % (fname, raw, e), where=wf)
                 continue
-            bad = [(t, b) for t, b in back if b != t + b'\n']
+            bad = [(t, b) for t, b in back if b != line(t)]
             rep.ob('R19.7', key, not bad,
                    '%s() tokenises the text %s for the string %s without the text phases of tokenize_file; -E prints that spelling, and tokenize_file reads it back as %s: the -E output denotes another token (another string value / identifier) than the one the compiler proper consumed, and preprocessing it again gives another text' % (
                        fname, bad and repr(show_(bad[0][0])), repr(show_(raw)), bad and repr(show_(bad[0][1].rstrip(b'\n')))),
